@@ -266,8 +266,8 @@ SPECS["C10"]["always_monitor"] = True
 
 SPECS["C20"] = node_spec(
     "C20", ["panic", "result"], "no_panic",
-    "Props/C20.v (242 pinned theorems; in the models every fatal!/assert!/panic!/unwrap/index/overflow of the Rust is a value `Panic site`, so 'no panic' is a statement about values): RawNode::step rejects the five local message types and responses of untracked peers with the documented errors and returns the node unchanged, passing everything else on unchanged; a SITE TABLE for every function of the Raft and RawNode models and the components they call (f args = Panic s -> s in an explicit list; exact 'fires iff' characterisations for the leaf functions and the state transitions); an invariant NodeInv (in-flight windows well formed, next_idx >= 1, ReadOnly queue = pending keys) that holds after Raft::new / RawNode::new and, for EVERY API function of Raft and RawNode, is preserved on Ok while on Panic the site is never one of the 14 node-local sites (Inflights, update_state, next_idx underflow, ReadOnly lookup, Progress unwrap); commit_ready directly after ready never panics; every model panic site is classified in the header (proved unreachable / needs protocol or storage invariants not proved here / misuse only / known reachable). Witnesses (vm_compute) for the reachable panics found: one still open (a term-0 node rejecting a pre-vote by priority, KNOWN FINDING F9), five fixed in /repo during this work and pinned as regression guards (self-removed leader, campaign of a removed node, leader with an unpersisted tail, persisted+limit overflow, hup scanning compacted entries).",
-    "the peer-dependent sites (append conflict below commit, commit_to out of range, slice bounds, restore mismatch, …) need protocol-level invariants about the messages of library peers and the RaftLog representation invariant across application storage writes; they are classified but NOT proved unreachable: for those the property is only exercised by the no_panic monitor (run on every check) and the panic-site comparison of the pointwise differential.",
+    "Props/C20.v (341 pinned theorems; in the models every fatal!/assert!/panic!/unwrap/index/overflow of the Rust is a value `Panic site`, so 'no panic' is a statement about values): RawNode::step rejects the five local message types and responses of untracked peers with the documented errors and returns the node unchanged, passing everything else on unchanged; a SITE TABLE for every function of the Raft and RawNode models and the components they call (f args = Panic s -> s in an explicit list; exact 'fires iff' characterisations for the leaf functions and the state transitions); an invariant NodeInv (in-flight windows well formed, next_idx >= 1, ReadOnly queue = pending keys) that holds after Raft::new / RawNode::new and, for EVERY API function of Raft and RawNode, is preserved on Ok while on Panic the site is never one of the 14 node-local sites (Inflights, update_state, next_idx underflow, ReadOnly lookup, Progress unwrap); commit_ready directly after ready never panics; with the RaftLog representation invariant lifted to the node (C14 node level) a second family: for every Raft function and every RawNode entry point, under NodeInv and LogOK (and well-formed inbound messages), a Panic is none of 21 further log/storage-shape sites (unstable slice, term lookup, last_term, append range, slice bounds, next_entries, scan, MemStorage read sites), and the trace theorem: along any non-panicking trace of RawNode calls and application storage writes from RawNode::new, the NEXT call cannot panic at any of these 35 sites; every model panic site is classified in the header (proved unreachable / needs protocol or storage invariants not proved here / misuse only / known reachable). Witnesses (vm_compute) for the reachable panics found: one still open (a term-0 node rejecting a pre-vote by priority, KNOWN FINDING F9), five fixed in /repo during this work and pinned as regression guards (self-removed leader, campaign of a removed node, leader with an unpersisted tail, persisted+limit overflow, hup scanning compacted entries).",
+    "the peer-dependent sites (append conflict below commit 1411, commit_to out of range 1412, restore mismatch, hint term, …) need protocol-level invariants about the messages of library peers; commit_info (1422) needs compaction strictly below the commit index and the MemStorage snapshot sites depend on the hard state the application wrote; they are classified (and characterised exactly where possible) but NOT proved unreachable: for those the property is only exercised by the no_panic monitor (run on every check) and the panic-site comparison of the pointwise differential.",
     "DESIGN.md section 7, C20",
     "Theorems: Props/C20.v over M/Raft.v, M/RawNode.v and components. Ties: pointwise differential on panic sites and results of every simulated call (adversarial runs included); structural: the syntactic panic sites of the modelled sources equal the committed inventory site_inventory.json; the no_panic monitor runs on every check.")
 SPECS["C20"]["always_monitor"] = True
